@@ -30,6 +30,7 @@ import (
 	"encoding/hex"
 	"fmt"
 	"image"
+	"io"
 	"math"
 	"runtime"
 	"strconv"
@@ -48,6 +49,7 @@ func init() {
 	replayers["wsynth"] = replayWriterSynth
 	replayers["writer-e2e"] = replayWriterE2E
 	replayers["writer-d10"] = replayWriterD10
+	replayers["parked-writer"] = replayParkedWriter
 }
 
 // ---------- canonical output ----------
@@ -1136,7 +1138,7 @@ const writerD10Gen = "5600x5600 *image.RGBA, alpha 255, R,G,B = low three bytes 
 
 func suiteWriter(rep *Report) error {
 	rich := rep.Tier == "thorough"
-	rep.Rule = "(a) synthetic calls of writeRIFFSimple / writeRIFFExtended / writeRIFF (opts and nil opts) / assembleFrame vs the Lean model: every payload length 0..70 plus 4074..4097, 65537, 2^20+1; fourcc VP8/VP8L/ABCD; alpha nil/empty/odd/even; each of ICC/EXIF/XMP nil/empty/1 byte/odd/even/chunk-like (fake VP8, ALPH, RIFF..WEBP, VP8X, a chunk header with size 0xfffffff0, a chunk sequence)/large in full product of presence; width/height at 1, 2, 16383, 16384 and outside (0, negative, 2^24+1, 2^32+1, MinInt64); VP8L headers with the alpha bit set/clear/short; first partitions beyond 19 bits (thorough: a token partition beyond 24 bits); (b) real webp.Encode output (lossless, lossy, with alpha, Partitions 0..3, tiny and >= 8 macroblock rows) under every subset of metadata (nil and empty, changed content): the file vs the independent RIFF walker, the VP8 payload vs the independent layout reader, the streaming path vs its model and vs the buffered writer, assembleFrame(split(payload)) = payload, and C15 (image/ALPH payload and decoded pixels independent of metadata, read-back through mux.Demuxer.GetChunk, exact VP8X flags, no chunk for nil/empty blobs); thorough: the 5600x5600 noise probe. non-trivial = an op with at least one non-empty byte string / every real encode"
+	rep.Rule = "(a) synthetic calls of writeRIFFSimple / writeRIFFExtended / writeRIFF (opts and nil opts) / assembleFrame vs the Lean model: every payload length 0..70 plus 4074..4097, 65537, 2^20+1; fourcc VP8/VP8L/ABCD; alpha nil/empty/odd/even; each of ICC/EXIF/XMP nil/empty/1 byte/odd/even/chunk-like (fake VP8, ALPH, RIFF..WEBP, VP8X, a chunk header with size 0xfffffff0, a chunk sequence)/large in full product of presence; width/height at 1, 2, 16383, 16384 and outside (0, negative, 2^24+1, 2^32+1, MinInt64); VP8L headers with the alpha bit set/clear/short; first partitions beyond 19 bits (thorough: a token partition beyond 24 bits); (b) real webp.Encode output (lossless, lossy, with alpha, Partitions 0..3, tiny and >= 8 macroblock rows) under every subset of metadata (nil and empty, changed content): the file vs the independent RIFF walker, the VP8 payload vs the independent layout reader, the streaming path vs its model and vs the buffered writer, assembleFrame(split(payload)) = payload, and C15 (image/ALPH payload and decoded pixels independent of metadata, read-back through mux.Demuxer.GetChunk, exact VP8X flags, no chunk for nil/empty blobs); (c) slow writers: a lossless Encode (3 of 4 on the streaming path) whose first Write blocks until three other encodes (lossless same size, lossless smaller, lossy+alpha) have completed, a writer that cuts every Write into 1..61-byte chunks with runtime.Gosched() before each, and an io.Pipe with a slow consumer, each under GOMAXPROCS(1) and the ambient value: the bytes received must be a well-formed file decoding to the picture of that call and equal the solo encode, the same for the overlapping calls; thorough: the 5600x5600 noise probe. non-trivial = an op with at least one non-empty byte string / every real encode"
 
 	t0 := time.Now()
 	lap := func(name string) {
@@ -1196,6 +1198,15 @@ func suiteWriter(rep *Report) error {
 	}
 
 	lap("rechecks")
+	// slow / blocking writers: other encodes run while a call is inside w.Write
+	{
+		rounds := 8
+		if rich {
+			rounds = 120
+		}
+		parkedWriterLeg(rep, "C02", "encode:slow-writer", rounds, 2)
+		lap("slow_writers")
+	}
 	// the Lean side
 	lines := make([]string, len(all))
 	for i := range all {
@@ -1357,5 +1368,293 @@ func replayWriterD10(in map[string]any) int {
 	if what != "" {
 		return 1
 	}
+	return 0
+}
+
+// ---------- slow / blocking writers (C02: the bytes handed to w are the file; C10: concurrent == solo) ----------
+//
+// webp.Encode writes to an arbitrary io.Writer. A Write may block (a pipe, a socket whose peer is slow) or
+// yield; while it does, other goroutines call Encode. Whatever the package hands to w - possibly a view of a
+// pooled buffer - has to stay intact until the last Write has returned. Three writers:
+//   gate     the first Write blocks until K other encodes (lossless of the same and of a smaller area, and
+//            lossy+alpha, whose alpha plane goes through the lossless encoder as well) have completed
+//   gosched  every Write is cut into chunks of 1..61 bytes with a runtime.Gosched() before each
+//   pipe     an io.Pipe whose consumer reads 1..97 bytes at a time and yields in between
+// each under GOMAXPROCS(1) (one P: a pooled object released by the parked goroutine is the next one handed
+// out) and under the ambient value. Oracle: the bytes received are a well-formed file that decodes to the
+// picture given to THAT call (lossless: exactly), and they equal the bytes of a solo encode into a
+// bytes.Buffer; the same for the K other encodes.
+
+type gateWriter struct {
+	buf     bytes.Buffer
+	started bool
+	reached chan struct{}
+	resume  chan struct{}
+}
+
+func (g *gateWriter) Write(p []byte) (int, error) {
+	if !g.started {
+		g.started = true
+		close(g.reached)
+		<-g.resume
+	}
+	return g.buf.Write(p)
+}
+
+type goschedWriter struct {
+	buf bytes.Buffer
+	r   *RNG
+}
+
+func (g *goschedWriter) Write(p []byte) (int, error) {
+	n := 0
+	for len(p) > 0 {
+		runtime.Gosched()
+		k := 1 + g.r.Intn(61)
+		if k > len(p) {
+			k = len(p)
+		}
+		g.buf.Write(p[:k])
+		p = p[k:]
+		n += k
+	}
+	return n, nil
+}
+
+type parkJob struct {
+	name string
+	img  *image.NRGBA
+	o    *webp.EncoderOptions
+	solo []byte
+}
+
+func (j *parkJob) check(got []byte) (what, detail string) {
+	if !bytes.Equal(got, j.solo) {
+		what, detail = "bytes-differ-from-solo", fmt.Sprintf("%d bytes %s, solo encode %d bytes %s", len(got), digest(got), len(j.solo), digest(j.solo))
+	}
+	if _, e := walkRIFF(got); e != "" {
+		return "not-wellformed", e
+	}
+	dec, err := webp.Decode(bytes.NewReader(got))
+	if err != nil {
+		return "not-decodable", err.Error()
+	}
+	if dec.Bounds().Dx() != j.img.Rect.Dx() || dec.Bounds().Dy() != j.img.Rect.Dy() {
+		return "decoded-size", fmt.Sprint(dec.Bounds())
+	}
+	if j.o.Lossless {
+		if same, why := nrgbaEqual(j.img, toNRGBA(dec), !j.o.Exact); !same {
+			return "decodes-to-other-picture", why
+		}
+	} else if ref, err := webp.Decode(bytes.NewReader(j.solo)); err == nil {
+		if same, why := nrgbaEqual(toNRGBA(ref), toNRGBA(dec), false); !same {
+			return "decodes-to-other-picture", "vs the solo file: " + why
+		}
+	}
+	return what, detail
+}
+
+// parkedWriterLeg runs the slow-writer scenarios; prop is the property the findings count against ("C02" in
+// suite writer, "C10" in suite sched), sigPrefix the signature prefix. Returns false when an Encode hung.
+func parkedWriterLeg(rep *Report, prop, sigPrefix string, rounds int, salt uint64) bool {
+	defer runtime.GOMAXPROCS(runtime.GOMAXPROCS(0))
+	ambient := runtime.GOMAXPROCS(0)
+	sizes := [][2]int{{48, 40}, {17, 9}, {64, 64}, {120, 90}, {1, 300}, {33, 17}, {1025, 2}, {8, 8}}
+	mkJob := func(r *RNG, name string, w, h int, lossless bool, acls int, meta bool) *parkJob {
+		cls := []int{ClsNoise, ClsPhoto, ClsPal16, ClsGradient, ClsPal256}[r.Intn(5)]
+		o := webp.DefaultOptions()
+		o.Lossless = lossless
+		o.Method = r.Intn(5)
+		o.Quality = float32([]int{25, 50, 75, 90}[r.Intn(4)])
+		o.Exact = r.Bool()
+		if meta {
+			o.EXIF = []byte("Exif\x00\x00parked")
+		}
+		return &parkJob{name: fmt.Sprintf("%s:%s lossless=%v m=%d q=%v exact=%v meta=%v", name, imgDesc(w, h, cls, acls), lossless, o.Method, o.Quality, o.Exact, meta),
+			img: GenImage(r, w, h, cls, acls), o: o}
+	}
+	for rd := 0; rd < rounds; rd++ {
+		r := NewRNG(rep.Seed, 0x7a000000+salt<<16+uint64(rd))
+		sz := sizes[(rd+int(rep.Seed))%len(sizes)]
+		w, h := sz[0], sz[1]
+		// the parked encode: lossless; 3 of 4 without metadata (streaming path: the payload is written
+		// straight from the encoder's buffer), 1 of 4 with (buffered path)
+		a := mkJob(r, "parked", w, h, true, []int{AlphaNone, AlphaNone, AlphaGradient, AlphaBinary}[r.Intn(4)], rd%4 == 3)
+		others := []*parkJob{
+			mkJob(r, "other-same-size", w, h, true, AlphaNone, false),
+			mkJob(r, "other-smaller", maxi(w/2, 1), maxi(h-1, 1), true, AlphaBinary, false),
+			mkJob(r, "other-lossy+alpha", w, h, false, AlphaGradient, false),
+		}
+		all := append([]*parkJob{a}, others...)
+		det := true
+		for _, j := range all {
+			b1, e1 := encodeBytes(j.img, j.o)
+			b2, e2 := encodeBytes(j.img, j.o)
+			if e1 != nil || e2 != nil {
+				det = false
+				break
+			}
+			if !bytes.Equal(b1, b2) {
+				rep.Count("parked:solo-encode-not-deterministic(C11)")
+				det = false
+				break
+			}
+			j.solo = append([]byte(nil), b1...)
+		}
+		if !det {
+			continue
+		}
+		for _, procs := range []int{1, ambient} {
+			for _, wk := range []string{"gate", "gosched", "pipe"} {
+				runtime.GOMAXPROCS(procs)
+				got := make([][]byte, len(all))
+				errs := make([]error, len(all))
+				runOthers := func(parallel bool) {
+					if !parallel {
+						for k := 1; k < len(all); k++ {
+							got[k], errs[k] = encodeBytes(all[k].img, all[k].o)
+						}
+						return
+					}
+					var wg sync.WaitGroup
+					for k := 1; k < len(all); k++ {
+						wg.Add(1)
+						go func(k int) {
+							defer wg.Done()
+							defer func() {
+								if e := recover(); e != nil {
+									errs[k] = fmt.Errorf("panic: %v", e)
+								}
+							}()
+							got[k], errs[k] = encodeBytes(all[k].img, all[k].o)
+						}(k)
+					}
+					wg.Wait()
+				}
+				done := make(chan struct{})
+				go func() {
+					defer close(done)
+					switch wk {
+					case "gate":
+						gw := &gateWriter{reached: make(chan struct{}), resume: make(chan struct{})}
+						fin := make(chan error, 1)
+						go func() {
+							defer func() {
+								if e := recover(); e != nil {
+									fin <- fmt.Errorf("panic: %v", e)
+								}
+							}()
+							fin <- webp.Encode(gw, a.img, a.o)
+						}()
+						select {
+						case <-gw.reached: // the encode is now parked inside its first Write
+							runOthers(procs != 1)
+							close(gw.resume)
+							errs[0] = <-fin
+						case errs[0] = <-fin: // returned without writing anything
+						}
+						got[0] = gw.buf.Bytes()
+					case "gosched":
+						gw := &goschedWriter{r: NewRNG(rep.Seed, 0x7b000000+uint64(rd))}
+						var wg sync.WaitGroup
+						wg.Add(1)
+						go func() {
+							defer wg.Done()
+							defer func() {
+								if e := recover(); e != nil {
+									errs[0] = fmt.Errorf("panic: %v", e)
+								}
+							}()
+							errs[0] = webp.Encode(gw, a.img, a.o)
+						}()
+						runOthers(true)
+						wg.Wait()
+						got[0] = gw.buf.Bytes()
+					case "pipe":
+						pr, pw := io.Pipe()
+						var col bytes.Buffer
+						rdDone := make(chan struct{})
+						go func() {
+							defer close(rdDone)
+							rr := NewRNG(rep.Seed, 0x7c000000+uint64(rd))
+							buf := make([]byte, 97)
+							for {
+								n, err := pr.Read(buf[:1+rr.Intn(97)])
+								col.Write(buf[:n])
+								if err != nil {
+									return
+								}
+								runtime.Gosched()
+							}
+						}()
+						var wg sync.WaitGroup
+						wg.Add(1)
+						go func() {
+							defer wg.Done()
+							defer func() {
+								if e := recover(); e != nil {
+									errs[0] = fmt.Errorf("panic: %v", e)
+								}
+								pw.Close()
+							}()
+							errs[0] = webp.Encode(pw, a.img, a.o)
+						}()
+						runOthers(true)
+						wg.Wait()
+						<-rdDone
+						got[0] = col.Bytes()
+					}
+				}()
+				select {
+				case <-done:
+				case <-time.After(120 * time.Second):
+					rep.Add(Finding{Kind: "property", Property: prop, Signature: sigPrefix + ":hang:" + wk,
+						Detail: fmt.Sprintf("webp.Encode into a %s writer did not return within 120 s (GOMAXPROCS=%d, %s)", wk, procs, a.name),
+						Input:  map[string]any{"op": "parked-writer", "seed": rep.Seed, "round": rd, "salt": salt, "writer": wk, "procs": procs}})
+					return false
+				}
+				runtime.GOMAXPROCS(ambient)
+				pk := "1"
+				if procs != 1 {
+					pk = "ambient"
+				}
+				rep.Count("parked:" + wk + ":GOMAXPROCS=" + pk)
+				for k, j := range all {
+					rep.Eval(true, []byte(fmt.Sprintf("parked %d %s %d %d %s", rd, wk, procs, k, digest(j.solo))))
+					role := "parked-call"
+					if k > 0 {
+						role = "overlapping-call"
+					}
+					in := map[string]any{"op": "parked-writer", "seed": rep.Seed, "round": rd, "salt": salt, "writer": wk, "procs": procs, "job": j.name}
+					if errs[k] != nil {
+						// Encode may fail, but not on these valid pictures
+						rep.Add(Finding{Kind: "property", Property: prop, Signature: sigPrefix + ":" + role + ":encode-error", Detail: fmt.Sprintf("%s: %v (writer %s, GOMAXPROCS=%d)", j.name, errs[k], wk, procs), Input: in})
+						continue
+					}
+					if what, detail := j.check(got[k]); what != "" {
+						rep.Add(Finding{Kind: "property", Property: prop, Signature: sigPrefix + ":" + role + ":" + what,
+							Detail: fmt.Sprintf("%s: Encode returned nil, but %s (%s writer, GOMAXPROCS=%d; %d other encodes ran while the call was inside w.Write)", j.name, detail, wk, procs, len(others)), Input: in})
+					}
+				}
+			}
+		}
+	}
+	return true
+}
+
+func replayParkedWriter(in map[string]any) int {
+	seed, _ := in["seed"].(float64)
+	rd, _ := in["round"].(float64)
+	salt, _ := in["salt"].(float64)
+	rep := NewReport("parked-writer", "replay", uint64(seed))
+	// rounds are independent: re-run rounds 0..rd (cheap) and show the findings
+	parkedWriterLeg(rep, "C02", "encode:slow-writer", int(rd)+1, uint64(salt))
+	for _, f := range rep.Findings {
+		fmt.Printf("%s %s: %s\n", f.Property, f.Signature, f.Detail)
+	}
+	if len(rep.Findings) > 0 {
+		return 1
+	}
+	fmt.Println("go: every slow-writer scenario produced the solo bytes")
 	return 0
 }
